@@ -388,8 +388,63 @@ pub fn property() -> Property {
         id: "C10",
         level: "exploration",
         parts: vec![
+            // first, so that its documents are inside the cross-check sample
+            Box::new(PropPart(OracleSelfCheck)),
             Box::new(PropPart(C10)),
             Box::new(PropPart(crate::props::agent_parts::C10Agent)),
         ],
+    }
+}
+
+// ------------------------------------------------------------------ oracle self-check
+
+/// The strict XML parser is the oracle of C10 (and judges generated ill-formed inputs in C12).
+/// This part generates *damaged* documents (the C14 mutation generator) and only has the strict
+/// parser judge them; at the end of the run every distinct judged document is re-parsed by expat
+/// (tools/expat_check.py) and a disagreement makes the run inconclusive. It cannot fail on its own.
+pub struct OracleSelfCheck;
+
+impl Prop for OracleSelfCheck {
+    type Case = crate::props::c14::Case;
+    fn name(&self) -> &'static str {
+        "oracle-self-check"
+    }
+    fn rule(&self) -> String {
+        "valid hellos / replies in generated styles damaged by 0..3 mutations of the C14 generator; the harness's strict XML parser judges each one that is still UTF-8 and the verdicts are compared with expat at the end of the run (coverage.strict_xml_parser_cross_check_with_expat). Non-trivial = a damaged (>=1 mutation) UTF-8 document; distinct by document".into()
+    }
+    fn cases(&self, tier: Tier) -> u32 {
+        tier.pick(20_000, 300_000)
+    }
+    fn strategy(&self, tier: Tier) -> BoxedStrategy<Self::Case> {
+        crate::props::c14::Mutations.strategy(tier)
+    }
+    fn check(&self, case: &Self::Case) -> Obs {
+        let mut obs = Obs::default();
+        if case
+            .mutations
+            .iter()
+            .any(|m| matches!(m, crate::props::c14::Mutation::Nest(d) if *d > 1000))
+        {
+            // the strict parser is recursive; 11000 levels need more stack than a worker has
+            obs.class("deep-nesting(skipped)");
+            return obs;
+        }
+        let mut bytes = crate::props::c14::render_base(&case.base, &case.style);
+        for m in case.mutations.iter().take(3) {
+            bytes = crate::props::c14::apply(bytes, m);
+        }
+        let Ok(text) = std::str::from_utf8(&bytes) else {
+            obs.class("not-utf8(skipped)");
+            return obs;
+        };
+        let body = text.strip_suffix(crate::sess::MARKER).unwrap_or(text);
+        if body.len() > 32 * 1024 {
+            obs.class("too-long(skipped)");
+            return obs;
+        }
+        let ok = parse_document(body).is_ok();
+        obs.class(if ok { "strict:well-formed" } else { "strict:ill-formed" });
+        obs.nontrivial = !case.mutations.is_empty();
+        obs
     }
 }
